@@ -70,6 +70,8 @@ type actor struct {
 	syncing    int
 	syncErrs   []string
 	connected  bool
+	gone       bool
+	wire       *wireState
 	synced     bool
 }
 
